@@ -119,6 +119,9 @@ class XGBoostSampler(MLSurrogateSampler):
             "Found loss values out of float32 limits, clipping them for XGBoost.",
             RuntimeWarning,
         )
+        # clip a copy: y is the caller's (the calibrator's live) loss history
+        y = np.copy(y)
+
         if len(large_floats) > 0:
             y[large_floats] = MAX_FLOAT32 - EPS_FLOAT32
 
